@@ -5,8 +5,10 @@
 //  encoding of the signed attributes under the EE certificate's key  and  the EE certificate
 //  validates under the issuer (C01); the CRL callback's verdict is honoured".
 //
-// Crypto (SHA-256, signature verification), the EE certificate validation (C01, unit cert_compose)
-// and bcder/bytes containers are abstract: every unknown is universally quantified.  The struct
+// Crypto (SHA-256, signature verification) and bcder/bytes containers are abstract: every unknown is
+// universally quantified.  The EE certificate validation (Cert::validate_ee_at, C01) and
+// SignedAttrs::encode_verify are used through contract links (//@stub) to the units that prove them
+// (cert_compose, sigattrs); the C01 predicates they mention are uninterpreted here.  The struct
 // definitions (SignedObject, Cert, TbsCert, ResourceCert, MessageDigest, SignedAttrs, Signature,
 // the digest Context) and the accessor bodies are the real text of /repo.
 use vstd::prelude::*;
@@ -34,23 +36,9 @@ impl Bytes {
     { unimplemented!() }
 }
 
-/// opaque stand-in for bcder::Captured
-#[verifier::external_body]
-pub struct Captured { _o: u8 }
-pub uninterp spec fn captured_view(c: Captured) -> Seq<u8>;
-impl Captured {
-    /// bcder: Deref<Target = Bytes>, Bytes::len = number of octets (assumed)
-    #[verifier::external_body]
-    pub fn len(&self) -> (r: usize)
-        ensures r == captured_view(*self).len()
-    { unimplemented!() }
-    /// bcder: `impl AsRef<[u8]> for Captured` returns the captured octets (assumed)
-    #[verifier::external_body]
-    pub fn as_ref(&self) -> (r: &[u8])
-        ensures r@ == captured_view(*self)
-    { unimplemented!() }
-}
-
+// bcder::Captured (stand-in + `captured_view`), `der_len`, `set_of_encoding`, `SignedAttrs::view`: the
+// vocabulary of SignedAttrs::encode_verify, shared with unit sigattrs which proves it
+//@include shared/cms_vocab.v.rs
 /// opaque stand-in for bcder::OctetString (primitive or constructed encoding)
 #[verifier::external_body]
 pub struct OctetString { _o: u8 }
@@ -342,20 +330,36 @@ impl ops::Deref for Cert {
     //@end
 }
 
-/// "the EE certificate `cert` validates under `issuer` at `now`" with the resulting validated
-/// certificate (abstract; this is property C01, decided by unit cert_compose)
-pub uninterp spec fn ee_valid(cert: Cert, issuer: ResourceCert, strict: bool, now: Time) -> Option<ResourceCert>;
+// ---- C01 vocabulary: abstract here, defined in unit cert_compose, which proves Cert::validate_ee_at ----
+/// Cert::inspect_ee accepts the certificate (the syntactic EE profile)
+pub uninterp spec fn inspect_ee_ok(c: Cert, strict: bool) -> bool;
+/// validity window at `now`, issuer claim (AKI == issuer's SKI) and signature under the issuer's key
+pub uninterp spec fn issued_basic_ok(c: Cert, issuer: ResourceCert, now: Time) -> bool;
+/// all three resource sets of the certificate can be issued by the issuer
+pub uninterp spec fn resources_ok(c: Cert, issuer: ResourceCert) -> bool;
+/// the three resource sets attached to rc are the ones c validly receives from issuer
+pub uninterp spec fn issued_resources(rc: ResourceCert, c: Cert, issuer: ResourceCert) -> bool;
+/// the resource chain is in canonical form (defined in unit res_sets; established by decoding through
+/// FromIterator and preserved by validation)
+pub uninterp spec fn ip_wf(b: IpBlocks) -> bool;
+pub uninterp spec fn as_wf(b: AsBlocks) -> bool;
+/// the decoded resource extensions of a certificate are in canonical form
+pub uninterp spec fn cert_res_wf(c: Cert) -> bool;
+// `issued_result`, `rc_wf` -- shared with unit cert_compose
+//@include shared/cert_vocab.v.rs
+
+/// "the EE certificate `cert` validates under `issuer` at `now`" (property C01, decided by unit
+/// cert_compose): the acceptance condition of Cert::validate_ee_at
+pub open spec fn ee_valid(cert: Cert, issuer: ResourceCert, strict: bool, now: Time) -> bool {
+    inspect_ee_ok(cert, strict) && issued_basic_ok(cert, issuer, now) && resources_ok(cert, issuer)
+}
 
 impl Cert {
-    /// Cert::validate_ee_at (cert.rs:246) = inspect_ee + verify_ee_at: contract of C01, assumed here
-    #[verifier::external_body]
+    /// contract link: Cert::validate_ee_at (cert.rs:246) = inspect_ee + verify_ee_at, proved in unit
+    /// cert_compose (C01); the requires/ensures text is taken from there
+    //@stub cert_compose :: impl Cert :: validate_ee_at
     pub fn validate_ee_at(self, issuer: &ResourceCert, strict: bool, now: Time) -> (r: Result<ResourceCert, ValidationError>)
-        ensures
-            match r {
-                Ok(rc) => ee_valid(self, *issuer, strict, now) == Some(rc),
-                Err(_) => ee_valid(self, *issuer, strict, now) is None,
-            }
-    { unimplemented!() }
+    //@end
 }
 impl ResourceCert {
     //@fn src/repository/cert.rs :: impl ResourceCert :: as_cert
@@ -378,20 +382,7 @@ impl ResourceCert {
 //@item src/repository/sigobj.rs :: pub struct SignedObject pubfields
 
 // ---- specification -----------------------------------------------------------------------------
-/// minimal DER definite-length octets (same definition as unit sigattrs)
-pub open spec fn der_len(n: int) -> Seq<u8> {
-    if n < 128 {
-        seq![n as u8]
-    } else if n < 256 {
-        seq![0x81u8, n as u8]
-    } else {
-        seq![0x82u8, (n / 256) as u8, (n % 256) as u8]
-    }
-}
-/// DER encoding of the signed attributes as a SET OF: the signature input
-pub open spec fn set_of_encoding(attrs: Seq<u8>) -> Seq<u8> {
-    seq![0x31u8] + der_len(attrs.len() as int) + attrs
-}
+// (`der_len`, `set_of_encoding`: shared/cms_vocab.v.rs)
 
 /// item 1c of RFC 6488 section 3: signer identifier == subject key identifier of the EE certificate
 pub open spec fn sid_matches(o: SignedObject) -> bool {
@@ -406,77 +397,43 @@ pub open spec fn signature_verifies(o: SignedObject) -> bool {
     sig_ok(o.cert.tbs.subject_public_key_info, set_of_encoding(captured_view(o.signed_attrs.0)), o.signature)
 }
 /// The property statement: the object is accepted under `issuer` at `now` exactly when all four
-/// conditions hold, and then yields the validated EE certificate.
-pub open spec fn accepted(o: SignedObject, issuer: ResourceCert, strict: bool, now: Time) -> Option<ResourceCert> {
-    if sid_matches(o) && digest_matches(o) && signature_verifies(o) {
-        ee_valid(o.cert, issuer, strict, now)
-    } else {
-        None
-    }
+/// conditions hold (and then yields the validated EE certificate: `outcome_is`).
+pub open spec fn accepted(o: SignedObject, issuer: ResourceCert, strict: bool, now: Time) -> bool {
+    sid_matches(o) && digest_matches(o) && signature_verifies(o) && ee_valid(o.cert, issuer, strict, now)
 }
-/// `r` is the outcome prescribed by `accepted`
-pub open spec fn outcome_is(r: Result<ResourceCert, ValidationError>, a: Option<ResourceCert>) -> bool {
-    match r {
-        Ok(rc) => a == Some(rc),
-        Err(_) => a is None,
-    }
-}
-/// established by decoding (SignedAttrs::take_from_with_mode rejects more than 65535 octets)
+/// the EE certificate carried by the object
+pub open spec fn ee_cert_of(o: SignedObject) -> Cert { o.cert }
+// `outcome_is(r, acc, o, issuer)`: r is Ok exactly when acc, and then the EE certificate of o validated
+// under the issuer -- shared with unit roa_aspa_verify, which assumes SignedObject::validate through a link
+//@include shared/sigobj_vocab.v.rs
+/// established by decoding: SignedAttrs::take_from_with_mode rejects more than 65535 octets, and the
+/// resource extensions of the EE certificate are built through FromIterator (canonical chains; this is
+/// the precondition of the linked Cert::validate_ee_at contract)
 pub open spec fn wf(o: SignedObject) -> bool {
     captured_view(o.signed_attrs.0).len() <= 0xFFFF
+    && cert_res_wf(o.cert)
 }
-/// outcome of `process` given the verdict `a` of the acceptance predicate
+/// outcome of `process` given the verdict `acc` of the acceptance predicate
 pub open spec fn process_outcome<F: FnOnce(&Cert) -> Result<(), ValidationError>>(
-    r: Result<(ResourceCert, Bytes), ValidationError>, content: OctetString, check_crl: F, a: Option<ResourceCert>
+    r: Result<(ResourceCert, Bytes), ValidationError>, o: SignedObject, issuer: ResourceCert, check_crl: F, acc: bool
 ) -> bool {
-    match a {
+    if !acc {
         // not accepted: rejected, whatever the callback would say
-        None => r is Err,
+        r is Err
+    } else {
         // accepted: the callback is consulted on the EE certificate and its verdict is the result
-        Some(rc) => match r {
-            Ok((cert, octets)) => cert == rc && bytes_view(octets) == os_view(content)
-                && check_crl.ensures((&rc.cert,), Ok(())),
-            Err(e) => check_crl.ensures((&rc.cert,), Err(e)),
-        },
-    }
-}
-
-pub mod lem {
-    use super::*;
-    pub proof fn lemma_len_octets(len: usize)
-        requires len < 0x10000,
-        ensures
-            (len >> 8) as u8 == (len as int / 256) as u8,
-            (len >> 8) < 256,
-            len as u8 == (len as int % 256) as u8,
-            len < 256 ==> len as u8 == len,
-    {
-        let l = len as u32;
-        assert(l >> 8 == l / 256) by (bit_vector);
-        assert((l >> 8) < 256) by (bit_vector) requires l < 0x10000;
-        assert(l as u8 == (l % 256) as u8) by (bit_vector);
-        assert(len >> 8 == (l >> 8) as usize) by (bit_vector) requires l == len as u32, len < 0x10000;
-        assert(len as u8 == l as u8) by (bit_vector) requires l == len as u32, len < 0x10000;
+        match r {
+            Ok((cert, octets)) => issued_result(cert, o.cert, issuer) && rc_wf(cert) && bytes_view(octets) == os_view(o.content)
+                && check_crl.ensures((&o.cert,), Ok(())),
+            Err(e) => check_crl.ensures((&o.cert,), Err(e)),
+        }
     }
 }
 
 impl SignedAttrs {
-    // same function, same contract and same proof as unit sigattrs (re-verified here, not assumed)
-    //@fn src/repository/sigobj.rs :: impl SignedAttrs :: encode_verify
-    //@spec
-        requires
-            captured_view(self.0).len() <= 0xFFFF,
-        ensures
-            r@ == set_of_encoding(captured_view(self.0)),
-    //@/spec
-    //@ghost after "let len = self.0.len();"
-        proof { lem::lemma_len_octets(len); }
-    //@/ghost
-    //@ghost before "res.extend_from_slice" optional
-        proof {
-            assert(res@ =~= seq![0x31u8] + der_len(len as int));
-        }
-    //@/ghost
+    /// contract link: proved in unit sigattrs (same property C02), text taken from there
+    //@stub sigattrs :: impl SignedAttrs :: encode_verify
+    pub fn encode_verify(&self) -> (r: Vec<u8>)
     //@end
 }
 
@@ -509,28 +466,28 @@ impl SignedObject {
     //@fn src/repository/sigobj.rs :: impl SignedObject :: validate_at
     //@spec
         requires
-            wf(self),
+            wf(self), rc_wf(*issuer),
         ensures
-            outcome_is(r, accepted(self, *issuer, strict, now)),
+            outcome_is(r, accepted(self, *issuer, strict, now), self, *issuer),
     //@/spec
     //@end
 
     //@fn src/repository/sigobj.rs :: impl SignedObject :: validate
     //@spec
         requires
-            wf(self),
+            wf(self), rc_wf(*issuer),
         ensures
-            exists|now: Time| outcome_is(r, #[trigger] accepted(self, *issuer, strict, now)),
+            exists|now: Time| outcome_is(r, #[trigger] accepted(self, *issuer, strict, now), self, *issuer),
     //@/spec
     //@end
 
     //@fn src/repository/sigobj.rs :: impl SignedObject :: process
     //@spec
         requires
-            wf(self),
+            wf(self), rc_wf(*issuer),
             forall|c: &Cert| #[trigger] check_crl.requires((c,)),
         ensures
-            exists|now: Time| process_outcome(r, self.content, check_crl, #[trigger] accepted(self, *issuer, strict, now)),
+            exists|now: Time| process_outcome(r, self, *issuer, check_crl, #[trigger] accepted(self, *issuer, strict, now)),
     //@/spec
     //@end
 }
@@ -540,27 +497,25 @@ impl SignedObject {
 #[verifier::external_body]
 pub struct ManifestContent { _o: u8 }
 //@item src/repository/manifest.rs :: pub struct Manifest pubfields
-pub open spec fn manifest_outcome(r: Result<(ResourceCert, ManifestContent), ValidationError>, content: ManifestContent, a: Option<ResourceCert>) -> bool {
-    match r {
-        Ok((rc, c)) => a == Some(rc) && c == content,
-        Err(_) => a is None,
-    }
+pub open spec fn manifest_outcome(r: Result<(ResourceCert, ManifestContent), ValidationError>, m: Manifest, issuer: ResourceCert, acc: bool) -> bool {
+    (r is Ok <==> acc)
+    && (r matches Ok((rc, c)) ==> issued_result(rc, m.signed.cert, issuer) && rc_wf(rc) && c == m.content)
 }
 impl Manifest {
     //@fn src/repository/manifest.rs :: impl Manifest :: validate_at
     //@spec
         requires
-            wf(self.signed),
+            wf(self.signed), rc_wf(*cert),
         ensures
-            manifest_outcome(r, self.content, accepted(self.signed, *cert, strict, now)),
+            manifest_outcome(r, self, *cert, accepted(self.signed, *cert, strict, now)),
     //@/spec
     //@end
     //@fn src/repository/manifest.rs :: impl Manifest :: validate
     //@spec
         requires
-            wf(self.signed),
+            wf(self.signed), rc_wf(*cert),
         ensures
-            exists|now: Time| manifest_outcome(r, self.content, #[trigger] accepted(self.signed, *cert, strict, now)),
+            exists|now: Time| manifest_outcome(r, self, *cert, #[trigger] accepted(self.signed, *cert, strict, now)),
     //@/spec
     //@end
 }
@@ -568,27 +523,28 @@ impl Manifest {
 // ---- consequences, in the words of the statement ---------------------------------------------
 /// acceptance implies each of the four conditions, and violating any one of them causes rejection
 proof fn lemma_exactly_the_conjunction(r: Result<ResourceCert, ValidationError>, o: SignedObject, issuer: ResourceCert, strict: bool, now: Time)
-    requires outcome_is(r, accepted(o, issuer, strict, now)),
+    requires outcome_is(r, accepted(o, issuer, strict, now), o, issuer),
     ensures
         r matches Ok(rc) ==> sid_matches(o) && digest_matches(o) && signature_verifies(o)
-            && ee_valid(o.cert, issuer, strict, now) == Some(rc),
+            && ee_valid(o.cert, issuer, strict, now) && issued_result(rc, o.cert, issuer) && rc.cert == o.cert,
         !sid_matches(o) ==> r is Err,
         !digest_matches(o) ==> r is Err,
         !signature_verifies(o) ==> r is Err,
-        ee_valid(o.cert, issuer, strict, now) is None ==> r is Err,
+        !ee_valid(o.cert, issuer, strict, now) ==> r is Err,
         sid_matches(o) && digest_matches(o) && signature_verifies(o)
-            && ee_valid(o.cert, issuer, strict, now) is Some ==> r is Ok,
+            && ee_valid(o.cert, issuer, strict, now) ==> r is Ok,
 {}
 
 /// the CRL callback's verdict is honoured: once the object is accepted, a callback that cannot
 /// return Ok for the EE certificate forces rejection, and one that cannot return Err forces acceptance
 proof fn lemma_crl_verdict_honoured<F: FnOnce(&Cert) -> Result<(), ValidationError>>(
-    r: Result<(ResourceCert, Bytes), ValidationError>, content: OctetString, check_crl: F, rc: ResourceCert)
-    requires process_outcome(r, content, check_crl, Some(rc)),
+    r: Result<(ResourceCert, Bytes), ValidationError>, o: SignedObject, issuer: ResourceCert, check_crl: F)
+    requires process_outcome(r, o, issuer, check_crl, true),
     ensures
-        !check_crl.ensures((&rc.cert,), Ok(())) ==> r is Err,
-        (forall|e: ValidationError| !#[trigger] check_crl.ensures((&rc.cert,), Err(e))) ==> r is Ok,
-        r matches Ok((cert, octets)) ==> cert == rc && bytes_view(octets) == os_view(content),
+        !check_crl.ensures((&o.cert,), Ok(())) ==> r is Err,
+        (forall|e: ValidationError| !#[trigger] check_crl.ensures((&o.cert,), Err(e))) ==> r is Ok,
+        r matches Ok((cert, octets)) ==> issued_result(cert, o.cert, issuer) && cert.cert == o.cert && rc_wf(cert)
+            && bytes_view(octets) == os_view(o.content),
 {}
 
 /// vacuity guard: the preconditions of validate_at / process are satisfiable together with both
@@ -597,11 +553,14 @@ proof fn reach_validate(o: SignedObject, issuer: ResourceCert, now: Time, rc: Re
     requires
         captured_view(o.signed_attrs.0).len() == 203,
         sid_matches(o), digest_matches(o), signature_verifies(o),
-        ee_valid(o.cert, issuer, true, now) == Some(rc),
+        ee_valid(o.cert, issuer, true, now),
+        rc.cert == o.cert, rc.tal == issuer.tal, issued_resources(rc, o.cert, issuer), rc_wf(rc),
+        cert_res_wf(o.cert),
     ensures
         wf(o),
-        accepted(o, issuer, true, now) == Some(rc),
-        outcome_is(Ok(rc), accepted(o, issuer, true, now)),
+        accepted(o, issuer, true, now),
+        outcome_is(Ok(rc), accepted(o, issuer, true, now), o, issuer),
+        !sid_matches(o) ==> outcome_is(Err(ValidationError { inner: arbitrary() }), false, o, issuer),
 {}
 
 } // verus!
